@@ -9,6 +9,7 @@ package dtls
 
 import (
 	dtlsfragmentbuffer "github.com/pion/dtls/v3/internal/fragmentbuffer"
+	"github.com/pion/dtls/v3/pkg/protocol"
 	"github.com/pion/dtls/v3/pkg/protocol/handshake"
 )
 
@@ -209,6 +210,16 @@ func zzSplitThenReassemble() {
 func zzMTUWiring() {
 	cfg := &dtlsConfig{}
 	cfg.MTU = zzsymInt("mtu")
+	// the fragment budget is the configured one whatever versions are enabled (a DTLS 1.3-capable endpoint must not
+	// silently cut larger fragments than the application allowed)
+	switch zzsymChoice("versions", 4) {
+	case 1:
+		cfg.MinVersion, cfg.MaxVersion = protocol.Version1_2, protocol.Version1_2
+	case 2:
+		cfg.MinVersion, cfg.MaxVersion = protocol.Version1_2, protocol.Version1_3
+	case 3:
+		cfg.MinVersion, cfg.MaxVersion = protocol.Version1_3, protocol.Version1_3
+	}
 	values, err := newConnConfigValues(cfg)
 	zzsymAssert(err == nil, "wiring_config_values_ok")
 	if cfg.MTU > 0 {
